@@ -257,6 +257,7 @@ fn check_matrix_inverses(ctx: &Ctx, c: &mut Collector) {
 // chromatic adaptation
 
 mod adapt;
+mod constants;
 mod matrix3;
 
 fn replay(c: &mut Collector, rep: &Value) {
@@ -295,6 +296,10 @@ fn replay(c: &mut Collector, rep: &Value) {
             let ctx = Ctx::from_args("C14").0;
             check_matrix_inverses(&ctx, c);
         }
+        "constants" => {
+            let ctx = Ctx::from_args("C14").0;
+            constants::run(&ctx, c);
+        }
         "dynamic" | "matrix3" => {
             let ctx = Ctx::from_args("C14").0;
             matrix3::run(&ctx, c);
@@ -327,6 +332,7 @@ fn real_main() -> i32 {
     run_graph(&ctx, &pgd::d50_f64(), levels, &mut total);
     run_graph(&ctx, &pgd::dci_f32(), levels, &mut total);
     run_graph(&ctx, &pgd::dci_f64(), levels, &mut total);
+    constants::run(&ctx, &mut total);
     check_matrix_inverses(&ctx, &mut total);
     adapt::run(&ctx, &mut total);
     matrix3::run(&ctx, &mut total);
